@@ -83,6 +83,23 @@ mut("c04-at-root-snapshot-prunes", ["C04"], HX,
     "        snapshot = type(self)(self.db, at_root_hash, prune=True)",
     suite=None, note="writes through an at_root snapshot prune shared nodes")
 
+mut("c03-proof-drops-final-branch", ["C03"], HX,
+    "            if not unproven_key:\n                return updated_proof\n",
+    "            if not unproven_key:\n                return last_proof\n",
+    suite=True, note="get_proof omits the branch node when the key ends at a branch")
+mut("c03-proof-no-descend-at-extension-end", ["C03"], HX,
+    "            if key_starts_with(unproven_key, current_key):\n                next_node = self.get_node(node[1])",
+    "            if key_starts_with(unproven_key, current_key) and len(unproven_key) > len(current_key):\n                next_node = self.get_node(node[1])",
+    suite=True, note="get_proof stops at an extension whose end is the key's end")
+mut("c03-missing-proof-node-read-as-absent", ["C03"], HX,
+    "            except MissingTrieNode as e:\n                raise BadTrieProof(",
+    "            except MissingTrieNode as e:\n                return b\"\"\n                raise BadTrieProof(",
+    suite=False, note="a withheld proof node is taken as proof of absence")
+mut("c03-verifier-trusts-first-node-as-root", ["C03"], HX,
+    "        with trie.at_root(root_hash) as proven_snapshot:",
+    "        with trie.at_root(trie._set_raw_node(proof[0]) if proof else root_hash) as proven_snapshot:",
+    suite=None, note="the claimed root is ignored: the first delivered node is used as root")
+
 quiet("q-no-shortcircuit-delete-branch", ["C01", "C02", "C06"], HX,
       "        if encoded_sub_node == node[trie_key[0]]:\n            # If no change, (value already empty), short-circuit and skip any other work\n            return node\n\n        node[trie_key[0]] = encoded_sub_node",
       "        node[trie_key[0]] = encoded_sub_node",
